@@ -9,6 +9,7 @@ from __future__ import annotations
 
 import builtins
 import math
+from fractions import Fraction as _Fraction
 
 import numpy as _np
 import z3
@@ -779,6 +780,9 @@ def _coerce(v, like: DType | None = None):
     if isinstance(v, (float, _np.floating)):
         dt = like if (like is not None and like.kind == "f") else float64
         return Array(OPS.const(float(v)), dt)
+    if isinstance(v, _Fraction):
+        dt = like if (like is not None and like.kind == "f") else float64
+        return Array(OPS.const(v), dt)
     if _is_term(v):
         if z3.is_bool(v):
             return Array(v, bool)
@@ -1087,6 +1091,8 @@ def _ctx_ite(cond, a, b, expect=True):
 
 def abs(x, /):  # noqa: A001
     x = asarray(x)
+    if hasattr(OPS, "abs"):
+        return Array(_map(OPS.abs, _fcells(x)), _fdt(x))
     z = OPS.zero()
     return Array(_map(lambda c: _ctx_ite(OPS.ge(c, z), c, OPS.neg(c)), _fcells(x)), _fdt(x))
 
@@ -1115,6 +1121,13 @@ def clip(x, /, min=None, max=None):  # noqa: A002
 
 def where(cond, a, b, /):
     cond = asarray(cond)
+    if cond.a.dtype != object:
+        if not cond.a.any():
+            r = asarray(b)
+            return Array(_np.broadcast_to(r.a, _np.broadcast_shapes(cond.shape, r.shape)).copy(), r.dt)
+        if cond.a.all():
+            r = asarray(a)
+            return Array(_np.broadcast_to(r.a, _np.broadcast_shapes(cond.shape, r.shape)).copy(), r.dt)
     a = _coerce(a)
     b = _coerce(b, a.dt if isinstance(a, Array) else None)
     if a.dt.kind == "f" or b.dt.kind == "f":
